@@ -19,3 +19,21 @@ CLAIMS["C15"] = (
     "Decides rules R15.1-R15.4. Not decided: promptness in seconds, goroutine counts at run time, data-race freedom in general, all interleavings." + COMMON_NOTE,
     "field-store inventory, enumerated close-once idioms checked by dominance/control dependence, select/send/receive inventory on go/ssa",
     "3/C15")
+
+CLAIMS["C07"] = (
+    "Structural rules over user discovery: a result carrying a cipher exists only on the success edge of an AEAD open under one user's key and carries that user's identity; the four candidate phases of tryState exist, in order, each trial guarded by exactly the enumerated conditions (so no phase can be skipped because of cache contents) with the hint-mandatory test between hint and fallback phases; generations are published only by SetUsers with the old cache retired, re-checked after discovery when requireCurrent, immutable after buildState; the source cache learns only after full validation; a session's identity comes from the authenticating cipher.",
+    "Decides rules R07.1, R07.2, R07.4, R07.5, R07.6. Not decided: independence from every reachable cache content (4096x4x16 table with wrapping ticks is value-level), the bounded de-duplication array beyond 16 users, reload/record races beyond the atomic-publication structure." + COMMON_NOTE,
+    "provenance slices, control-dependence vocabulary check of trial guards, CFG reachability/order, path cuts, field-store inventories on go/ssa",
+    "3/C07")
+
+CLAIMS["C11"] = (
+    "Path-sensitive reachability over handleAuthentication: with credentials configured no feasible path returns nil without taking the credential-match edge (correlated local flags are tracked, so every method list is covered at once); with none configured username/password is never selected; the request is read / forwarded only after authentication on the side that owns it; the client daemon's wiring of credentials and the HTTP-proxy exclusion are checked by provenance and reachability.",
+    "Decides rules R11.1-R11.4. Not decided: comparison timing, credentials longer than 255 bytes, the == operator itself." + COMMON_NOTE,
+    "path-sensitive CFG exploration with branch facts (go/ssa), path cuts, provenance slices",
+    "3/C11")
+
+CLAIMS["C12"] = (
+    "The egress decision is checked as a choke point and as a truth table: every dial / datagram send to a peer-designated address is reachable only past the decision (CONNECT under FindAction==DIRECT, each relayed UDP datagram past the per-datagram filter wired to isDestinationAllowed and the session's user); isDestinationAllowed is folded by constant propagation for all 64 combinations of address-class predicates and allow flags plus the empty-host, IP-literal and local-name scenarios and compared with the table the property states; local names are compared only with EqualFold; one parser; first match wins; identity from the mieru session.",
+    "Decides rules R12.1-R12.6. Not decided: resolver behaviour for other spellings of local names (trailing dot, IDNA), DNS answers pointing into private space (outside the statement), the net.IP predicates themselves." + COMMON_NOTE,
+    "who-may-call + dominance/path cuts, constant propagation over go/ssa for a finite truth table, provenance slices",
+    "3/C12")
